@@ -7,7 +7,9 @@ Lemmas for the CSV byte format (`Rpft/Csv.lean`).
 2. the machine on the encoding of a list of records in which every field is tagged quoted /
    unquoted (`encRows`): `parse_encRows` — every legal CSV text of that grammar is read back as the
    records it encodes.
-3. `writeRows` produces such an encoding (`writeRows_eq_enc`).
+3. `writeRows` produces such an encoding (`writeRows_eq`), hence `parse_writeRows`.
+4. for EVERY text: `parse_error_is_fieldLimit` (the "new-line character seen in unquoted field"
+   error is unreachable behind `newline=""` line iteration), `parse_output_fits`, `parse_mono`.
 -/
 import Rpft.Csv
 set_option linter.unusedSimpArgs false
@@ -577,5 +579,364 @@ theorem parse_writeRows (limit : Nat) (lt : Str) (hlt : lt = crlf ∨ lt = lf) (
     simp only [List.mem_map] at hr
     obtain ⟨r0, hr0, rfl⟩ := hr
     exact tagRow_len lt qa r0 limit (hn r0 hr0)
+
+/-! ### 4. the machine on ARBITRARY texts: the only failure is the field limit, the output fits
+the limit, success is monotone in the limit -/
+
+theorem withState_addChar (limit : Nat) (s : St) (r : Reader) (c : Char) :
+    withState s (addChar limit r c) =
+      if r.fieldLen ≥ limit then .error .fieldLimit
+      else .ok ⟨s, c :: r.field, r.fieldLen + 1, r.fields⟩ := by
+  unfold addChar
+  by_cases h : r.fieldLen ≥ limit <;> simp [h, withState]
+
+/-- what one step of the automaton can do to the reader -/
+theorem processChar_cases (limit : Nat) (r : Reader) (c : Option Char) (r' : Reader)
+    (h : processChar limit r c = .ok r') :
+    (∃ s, r' = ⟨s, r.field, r.fieldLen, r.fields⟩) ∨
+    (∃ s, r' = ⟨s, [], 0, r.fields ++ [r.field.reverse]⟩) ∨
+    (∃ s ch, r.fieldLen < limit ∧ r' = ⟨s, ch :: r.field, r.fieldLen + 1, r.fields⟩) := by
+  obtain ⟨st, fld, n, flds⟩ := r
+  cases st <;> cases c <;>
+    simp only [processChar, startFieldCase, withState_addChar, saveField] at h <;>
+    (try simp only [addChar] at h) <;>
+    (repeat' split at h) <;>
+    first
+      | (cases h; exact Or.inl ⟨_, rfl⟩)
+      | (cases h; exact Or.inr (Or.inl ⟨_, rfl⟩))
+      | (cases h; exact Or.inr (Or.inr ⟨_, _, by simp only; omega, rfl⟩))
+      | (cases h)
+
+theorem processChar_error (limit : Nat) (r : Reader) (c : Option Char) (e : CsvErr)
+    (h : processChar limit r c = .error e) :
+    (e = .fieldLimit ∧ limit ≤ r.fieldLen) ∨ (e = .newlineInUnquoted ∧ r.state = .eatCrnl ∧ c ≠ none) := by
+  obtain ⟨st, fld, n, flds⟩ := r
+  cases st <;> cases c <;>
+    simp only [processChar, startFieldCase, withState_addChar, saveField] at h <;>
+    (try simp only [addChar] at h) <;>
+    (repeat' split at h) <;>
+    first
+      | (cases h; exact Or.inl ⟨rfl, by simp only; omega⟩)
+      | (cases h; exact Or.inr ⟨rfl, rfl, by simp⟩)
+      | (cases h)
+
+/-- after `EOL` the automaton is between records or inside a quoted field -/
+theorem processChar_eol (limit : Nat) (r : Reader) :
+    ∃ r', processChar limit r none = .ok r' ∧ (r'.state = .startRecord ∨ r'.state = .inQuotedField) := by
+  obtain ⟨st, fld, n, flds⟩ := r
+  cases st <;> simp [processChar, startFieldCase, saveField]
+
+/-- EAT_CRNL is entered only on a CR or LF -/
+theorem processChar_eatCrnl (limit : Nat) (r r' : Reader) (ch : Char)
+    (h : processChar limit r (some ch) = .ok r') (hs : r'.state = .eatCrnl) :
+    ch = '\n' ∨ ch = '\r' := by
+  obtain ⟨st, fld, n, flds⟩ := r
+  cases st <;>
+    simp only [processChar, startFieldCase, withState_addChar, saveField] at h <;>
+    (try simp only [addChar] at h) <;>
+    (repeat' split at h) <;>
+    first
+      | (cases h; simp at hs; done)
+      | (cases h; assumption)
+      | (cases h)
+
+/-- success does not depend on the limit, as long as it is large enough -/
+theorem processChar_mono (limit L : Nat) (hL : limit ≤ L) (r r' : Reader) (c : Option Char)
+    (h : processChar limit r c = .ok r') : processChar L r c = .ok r' := by
+  obtain ⟨st, fld, n, flds⟩ := r
+  cases st <;> cases c <;>
+    simp only [processChar, startFieldCase, withState_addChar, saveField] at h ⊢ <;>
+    (try simp only [addChar] at h ⊢) <;>
+    (repeat' split at h) <;>
+    first
+      | (cases h; done)
+      | (cases h; simp_all; done)
+      | (cases h; simp_all; omega)
+
+/-! ### invariants of the fused machine on ARBITRARY texts -/
+
+/-- EAT_CRNL is only ever occupied while the line iterator still owes the line end of a CR -/
+def CrInv (m : M) : Prop := m.rd.state = .eatCrnl → m.prevCR = true
+
+theorem eolM_spec (limit : Nat) (m : M) :
+    ∃ m', eolM limit m = .ok m' ∧ m'.rd.state ≠ .eatCrnl ∧
+      ((m'.rd = fresh ∧ ∃ r', processChar limit m.rd none = .ok r' ∧ m'.out = m.out ++ [r'.fields]) ∨
+       (processChar limit m.rd none = .ok m'.rd ∧ m'.out = m.out)) := by
+  obtain ⟨r', hr, hs⟩ := processChar_eol limit m.rd
+  unfold eolM
+  rw [hr]
+  simp only
+  split
+  · exact ⟨_, rfl, by simp [fresh], Or.inl ⟨rfl, r', rfl, rfl⟩⟩
+  · refine ⟨_, rfl, ?_, Or.inr ⟨rfl, rfl⟩⟩
+    rcases hs with h | h <;> simp [h]
+
+theorem stepM_crinv (limit : Nat) (m : M) (c : Char) (hm : CrInv m) :
+    (∀ e, stepM limit m c = .error e → e = .fieldLimit) ∧
+    (∀ m', stepM limit m c = .ok m' → CrInv m') := by
+  unfold stepM
+  split
+  · -- LF
+    rename_i hc
+    subst hc
+    cases hp : processChar limit m.rd (some '\n') with
+    | error e =>
+      refine ⟨fun e' he => ?_, (fun m' he => by cases he)⟩
+      simp only [Except.error.injEq] at he
+      subst he
+      rcases processChar_error limit m.rd _ e hp with h | ⟨_, hs, _⟩
+      · exact h.1
+      · -- in EAT_CRNL a LF is accepted
+        simp [processChar, hs] at hp
+    | ok r =>
+      obtain ⟨m', hm', hs, _⟩ := eolM_spec limit ⟨r, false, true, m.out⟩
+      simp only [hm']
+      refine ⟨(fun e he => by cases he), fun m'' he => ?_⟩
+      cases he
+      intro h; exact absurd h hs
+  · rename_i hc
+    have key : ∀ m1 : M, m1.rd.state ≠ .eatCrnl →
+        (∀ e, (match processChar limit m1.rd (some c) with
+            | .error e => (.error e : Except CsvErr M)
+            | .ok r => .ok ⟨r, c == '\r', true, m1.out⟩) = .error e → e = .fieldLimit) ∧
+        (∀ m', (match processChar limit m1.rd (some c) with
+            | .error e => (.error e : Except CsvErr M)
+            | .ok r => .ok ⟨r, c == '\r', true, m1.out⟩) = .ok m' → CrInv m') := by
+      intro m1 hs1
+      cases hp : processChar limit m1.rd (some c) with
+      | error e =>
+        refine ⟨fun e' he => ?_, (fun m' he => by cases he)⟩
+        simp only [Except.error.injEq] at he
+        subst he
+        rcases processChar_error limit m1.rd _ e hp with h | ⟨_, hs, _⟩
+        · exact h.1
+        · exact absurd hs hs1
+      | ok r =>
+        refine ⟨(fun e he => by cases he), fun m' he => ?_⟩
+        cases he
+        intro hs
+        simp only at hs
+        rcases processChar_eatCrnl limit m1.rd r c hp hs with h | h
+        · exact absurd h hc
+        · simp [h]
+    by_cases hp : m.prevCR = true
+    · simp only [hp, if_true]
+      obtain ⟨m1, hm1, hs1, _⟩ := eolM_spec limit m
+      simp only [hm1]
+      exact key m1 hs1
+    · simp only [hp, if_false]
+      exact key m (fun h => hp (hm h))
+
+theorem feedM_crinv (limit : Nat) (t : Str) (m : M) (hm : CrInv m) :
+    (∀ e, feedM limit t m = .error e → e = .fieldLimit) ∧
+    (∀ m', feedM limit t m = .ok m' → CrInv m') := by
+  induction t generalizing m with
+  | nil => exact ⟨(fun e he => by cases he), (fun m' he => by cases he; exact hm)⟩
+  | cons c t ih =>
+    obtain ⟨h1, h2⟩ := stepM_crinv limit m c hm
+    simp only [feedM]
+    cases hs : stepM limit m c with
+    | error e => exact ⟨(fun e' he => by cases he; exact h1 e hs), (fun m' he => by cases he)⟩
+    | ok m1 => exact ih m1 (h2 m1 hs)
+
+/-- **the only way the parser can fail is the field limit**: with `newline=""` line iteration the
+"new-line character seen in unquoted field" error of `csv.reader` is unreachable, for EVERY text -/
+theorem parse_error_is_fieldLimit (limit : Nat) (text : Str) (e : CsvErr)
+    (h : parseCsvWith limit text = .error e) : e = .fieldLimit := by
+  rw [parse_eq_fused, runM] at h
+  have hinit : CrInv ⟨fresh, false, false, []⟩ := by intro hs; simp [fresh] at hs
+  obtain ⟨h1, h2⟩ := feedM_crinv limit text _ hinit
+  cases hf : feedM limit text ⟨fresh, false, false, []⟩ with
+  | error e' => rw [hf] at h; cases h; exact h1 e hf
+  | ok m' =>
+    rw [hf] at h
+    simp only [finishM] at h
+    by_cases hp : m'.pend = true
+    · obtain ⟨m1, hm1, _⟩ := eolM_spec limit m'
+      simp [hp, hm1] at h
+    · simp [hp] at h
+
+/-- the reader's buffers never exceed the limit -/
+def RInv (limit : Nat) (r : Reader) : Prop :=
+  r.fieldLen = r.field.length ∧ r.fieldLen ≤ limit ∧ ∀ f ∈ r.fields, f.length ≤ limit
+
+def MFit (limit : Nat) (m : M) : Prop :=
+  RInv limit m.rd ∧ ∀ r ∈ m.out, ∀ f ∈ r, f.length ≤ limit
+
+theorem processChar_rinv (limit : Nat) (r r' : Reader) (c : Option Char) (hr : RInv limit r)
+    (h : processChar limit r c = .ok r') : RInv limit r' := by
+  obtain ⟨h1, h2, h3⟩ := hr
+  rcases processChar_cases limit r c r' h with ⟨s, rfl⟩ | ⟨s, rfl⟩ | ⟨s, ch, hlt, rfl⟩
+  · exact ⟨h1, h2, h3⟩
+  · refine ⟨rfl, Nat.zero_le _, ?_⟩
+    intro f hf
+    simp only [List.mem_append, List.mem_singleton] at hf
+    rcases hf with hf | hf
+    · exact h3 f hf
+    · subst hf; simp only [List.length_reverse]; omega
+  · refine ⟨by simp only [List.length_cons]; omega, by simp only; omega, h3⟩
+
+theorem rinv_fresh (limit : Nat) : RInv limit fresh :=
+  ⟨rfl, Nat.zero_le _, fun f hf => by simp [fresh] at hf⟩
+
+theorem eolM_fit (limit : Nat) (m m' : M) (hm : MFit limit m) (h : eolM limit m = .ok m') :
+    MFit limit m' := by
+  obtain ⟨m1, hm1, _, hcase⟩ := eolM_spec limit m
+  rw [hm1] at h
+  cases h
+  rcases hcase with ⟨hf, r', hr', ho⟩ | ⟨hr', ho⟩
+  · refine ⟨by rw [hf]; exact rinv_fresh limit, ?_⟩
+    rw [ho]
+    intro r hr f hf'
+    simp only [List.mem_append, List.mem_singleton] at hr
+    rcases hr with hr | hr
+    · exact hm.2 r hr f hf'
+    · subst hr; exact (processChar_rinv limit m.rd r' none hm.1 hr').2.2 f hf'
+  · exact ⟨processChar_rinv limit m.rd m'.rd none hm.1 hr', by rw [ho]; exact hm.2⟩
+
+theorem stepM_fit (limit : Nat) (m m' : M) (c : Char) (hm : MFit limit m)
+    (h : stepM limit m c = .ok m') : MFit limit m' := by
+  unfold stepM at h
+  split at h
+  · cases hp : processChar limit m.rd (some c) with
+    | error e => rw [hp] at h; cases h
+    | ok r =>
+      rw [hp] at h
+      exact eolM_fit limit ⟨r, false, true, m.out⟩ m'
+        ⟨processChar_rinv limit m.rd r _ hm.1 hp, hm.2⟩ h
+  · have key : ∀ m1 : M, MFit limit m1 →
+        (match processChar limit m1.rd (some c) with
+          | .error e => (.error e : Except CsvErr M)
+          | .ok r => .ok ⟨r, c == '\r', true, m1.out⟩) = .ok m' → MFit limit m' := by
+      intro m1 hm1 h1
+      cases hp : processChar limit m1.rd (some c) with
+      | error e => rw [hp] at h1; cases h1
+      | ok r =>
+        rw [hp] at h1
+        cases h1
+        exact ⟨processChar_rinv limit m1.rd r _ hm1.1 hp, hm1.2⟩
+    by_cases hp : m.prevCR = true
+    · simp only [hp, if_true] at h
+      cases he : eolM limit m with
+      | error e => rw [he] at h; cases h
+      | ok m1 => rw [he] at h; exact key m1 (eolM_fit limit m m1 hm he) h
+    · simp only [hp, if_false] at h
+      exact key m hm h
+
+theorem feedM_fit (limit : Nat) (t : Str) (m m' : M) (hm : MFit limit m)
+    (h : feedM limit t m = .ok m') : MFit limit m' := by
+  induction t generalizing m with
+  | nil => cases h; exact hm
+  | cons c t ih =>
+    simp only [feedM] at h
+    cases hs : stepM limit m c with
+    | error e => rw [hs] at h; cases h
+    | ok m1 => rw [hs] at h; exact ih m1 (stepM_fit limit m m1 c hm hs) h
+
+/-- **whatever the reader delivers fits its field limit** — for EVERY text -/
+theorem parse_output_fits (limit : Nat) (text : Str) (recs : List (List Str))
+    (h : parseCsvWith limit text = .ok recs) : ∀ r ∈ recs, ∀ f ∈ r, f.length ≤ limit := by
+  rw [parse_eq_fused, runM] at h
+  cases hf : feedM limit text ⟨fresh, false, false, []⟩ with
+  | error e => rw [hf] at h; cases h
+  | ok m' =>
+    rw [hf] at h
+    have hm' := feedM_fit limit text _ m' ⟨rinv_fresh limit, fun r hr => by simp at hr⟩ hf
+    have fin : ∀ m1 : M, MFit limit m1 → ∀ r ∈ finalM m1, ∀ f ∈ r, f.length ≤ limit := by
+      intro m1 hm1 r hr f hf'
+      unfold finalM at hr
+      split at hr
+      · simp only [List.mem_append, List.mem_singleton] at hr
+        rcases hr with hr | hr
+        · exact hm1.2 r hr f hf'
+        · subst hr
+          simp only [saveField, List.mem_append, List.mem_singleton] at hf'
+          rcases hf' with hf' | hf'
+          · exact hm1.1.2.2 f hf'
+          · subst hf'; simp only [List.length_reverse]; have := hm1.1.1; have := hm1.1.2.1; omega
+      · exact hm1.2 r hr f hf'
+    simp only [finishM] at h
+    by_cases hp : m'.pend = true
+    · simp only [hp, if_true] at h
+      cases he : eolM limit m' with
+      | error e => rw [he] at h; cases h
+      | ok m1 =>
+        rw [he] at h
+        cases h
+        exact fin m1 (eolM_fit limit m' m1 hm' he)
+    · simp only [hp, if_false] at h
+      cases h
+      exact fin m' hm'
+
+/-! success is monotone in the limit -/
+
+theorem eolM_mono (limit L : Nat) (hL : limit ≤ L) (m m' : M) (h : eolM limit m = .ok m') :
+    eolM L m = .ok m' := by
+  unfold eolM at h ⊢
+  cases hp : processChar limit m.rd none with
+  | error e => rw [hp] at h; cases h
+  | ok r => rw [hp] at h; rw [processChar_mono limit L hL m.rd r none hp]; exact h
+
+theorem stepM_mono (limit L : Nat) (hL : limit ≤ L) (m m' : M) (c : Char)
+    (h : stepM limit m c = .ok m') : stepM L m c = .ok m' := by
+  unfold stepM at h ⊢
+  split
+  · rename_i hc
+    subst hc
+    simp only [if_true] at h
+    cases hp : processChar limit m.rd (some '\n') with
+    | error e => rw [hp] at h; cases h
+    | ok r =>
+      rw [hp] at h
+      rw [processChar_mono limit L hL m.rd r _ hp]
+      exact eolM_mono limit L hL _ m' h
+  · rename_i hc
+    simp only [hc, if_false] at h
+    have key : ∀ m1 : M,
+        (match processChar limit m1.rd (some c) with
+          | .error e => (.error e : Except CsvErr M)
+          | .ok r => .ok ⟨r, c == '\r', true, m1.out⟩) = .ok m' →
+        (match processChar L m1.rd (some c) with
+          | .error e => (.error e : Except CsvErr M)
+          | .ok r => .ok ⟨r, c == '\r', true, m1.out⟩) = .ok m' := by
+      intro m1 h1
+      cases hp : processChar limit m1.rd (some c) with
+      | error e => rw [hp] at h1; cases h1
+      | ok r => rw [hp] at h1; rw [processChar_mono limit L hL m1.rd r _ hp]; exact h1
+    by_cases hp : m.prevCR = true
+    · simp only [hp, if_true] at h ⊢
+      cases he : eolM limit m with
+      | error e => rw [he] at h; cases h
+      | ok m1 => rw [he] at h; rw [eolM_mono limit L hL m m1 he]; exact key m1 h
+    · simp only [hp, if_false] at h ⊢
+      exact key m h
+
+theorem feedM_mono (limit L : Nat) (hL : limit ≤ L) (t : Str) (m m' : M)
+    (h : feedM limit t m = .ok m') : feedM L t m = .ok m' := by
+  induction t generalizing m with
+  | nil => exact h
+  | cons c t ih =>
+    simp only [feedM] at h ⊢
+    cases hs : stepM limit m c with
+    | error e => rw [hs] at h; cases h
+    | ok m1 => rw [hs] at h; rw [stepM_mono limit L hL m m1 c hs]; exact ih m1 h
+
+/-- a text that parses under one limit parses to the same records under every larger one -/
+theorem parse_mono (limit L : Nat) (hL : limit ≤ L) (text : Str) (recs : List (List Str))
+    (h : parseCsvWith limit text = .ok recs) : parseCsvWith L text = .ok recs := by
+  rw [parse_eq_fused, runM] at h ⊢
+  cases hf : feedM limit text ⟨fresh, false, false, []⟩ with
+  | error e => rw [hf] at h; cases h
+  | ok m' =>
+    rw [hf] at h
+    rw [feedM_mono limit L hL text _ m' hf]
+    simp only [finishM] at h ⊢
+    by_cases hp : m'.pend = true
+    · simp only [hp, if_true] at h ⊢
+      cases he : eolM limit m' with
+      | error e => rw [he] at h; cases h
+      | ok m1 => rw [he] at h; rw [eolM_mono limit L hL m' m1 he]; exact h
+    · simp only [hp, if_false] at h ⊢
+      exact h
 
 end Rpft.Csv
